@@ -15,6 +15,7 @@ pub mod c13;
 pub mod c14;
 pub mod c15;
 pub mod c16;
+pub mod c17;
 pub mod c20;
 
 use crate::runner::{replay_prop, run_prop, Ctx};
@@ -46,6 +47,7 @@ pub fn dispatch(id: &str, ctx: &Ctx, replay: Option<&str>) -> i32 {
     "C14" => go!(c14::C14, ctx, replay),
     "C15" => go!(c15::C15, ctx, replay),
     "C16" => go!(c16::C16, ctx, replay),
+    "C17" => go!(c17::C17, ctx, replay),
     "C20" => go!(c20::C20, ctx, replay),
     _ => {
       eprintln!("unknown property {id}");
